@@ -1281,6 +1281,91 @@ pub fn crash_family(prop: &str) -> i32 {
 }
 
 
+/// A backend request fails *inside a concurrent execution*: for a few scenarios of two calls, every
+/// position k of the failing request x every schedule within deviation bound 1. Afterwards the
+/// backend is healed and the end state is judged like any concurrent execution, failed calls being
+/// optional: no panic or deadlock, per-block linearizability of what the device reads, content equal
+/// after flush + reopen.
+pub fn faulted_concurrent_part(thorough: bool) -> (Vec<Violation>, Value) {
+    let g = images::G10;
+    let (cs, bs, tb) = (g.cs(), g.bs(), g.tb());
+    let w = |off: u64, len: u64, tag: u32| Op::Write { off, len: len as usize, tag };
+    let r = |off: u64, len: u64| Op::Read { off, len: len as usize };
+    let img = images::lib_formatted(g.cluster_bits, g.order, g.vsize());
+    let cold = vec![w(0, cs, 0x51), w(tb, bs, 0x52), Op::Flush, Op::Reopen];
+    let warm = vec![w(0, cs, 0x51), w(tb, bs, 0x52), Op::Flush];
+    let mut scn: Vec<(&str, Vec<Op>, Vec<Vec<Op>>)> = vec![
+        ("cold-read||cold-read", cold.clone(), vec![vec![r(tb, bs)], vec![r(0, bs)]]),
+        ("cold-write||cold-read", cold.clone(), vec![vec![w(tb + cs, bs, 0x11)], vec![r(0, cs)]]),
+        ("write||flush", warm.clone(), vec![vec![w(cs, cs, 0x11)], vec![Op::Flush]]),
+        ("discard||write", warm.clone(), vec![vec![Op::Discard { off: 0, len: cs }], vec![w(2 * cs, cs, 0x11)]]),
+    ];
+    if thorough {
+        scn.push(("cold-write||cold-write", cold.clone(), vec![vec![w(tb + cs, bs, 0x11)], vec![w(cs, bs, 0x12)]]));
+        scn.push(("discard||flush", warm.clone(), vec![vec![Op::Discard { off: 0, len: cs }], vec![Op::Flush]]));
+        scn.push(("write-third-slice||read", warm.clone(), vec![vec![w(2 * tb, bs, 0x11)], vec![r(0, cs)]]));
+    }
+    let scenarios: Vec<SchedScenario> = scn
+        .into_iter()
+        .map(|(n, setup, tasks)| SchedScenario { name: format!("faulted:{}", n), img: img.clone(), cfg: g.cfg_small(), cfg_name: "small".into(), setup, tasks, fused: true })
+        .collect();
+    // positions: up to the number of requests of the default schedule (+ a few)
+    let mut jobs: Vec<(usize, usize)> = vec![];
+    for (si, sc) in scenarios.iter().enumerate() {
+        let n = match sc.execute(&[]) {
+            Ok(x) => x.world.sim.borrow().reqs.len() - x.log_start,
+            Err(_) => 0,
+        };
+        for k in 0..(n + 2).min(48) {
+            jobs.push((si, k));
+        }
+    }
+    let deadline = deadline_in(if thorough { 300 } else { 15 });
+    let want = ["C17", "C06", "C02"];
+    let results: Vec<(u64, Vec<Violation>)> = jobs
+        .par_iter()
+        .map(|&(si, k)| {
+            let sc = &scenarios[si];
+            let mut viols: Vec<Violation> = vec![];
+            crate::sched::FAIL_KTH.with(|c| c.set(Some(k)));
+            let mut execs = 0u64;
+            for b in 0..=(if thorough { 2 } else { 1 }) {
+                let r = explore(sc, b, 3_000, deadline, |sc, x| {
+                    let o = lin::judge(sc, x, &want);
+                    for mut v in o.violations {
+                        v.class = format!("concurrent-fault:{}:{}", v.prop, v.class);
+                        v.detail = format!("{} [request {} of the concurrent phase failed]", v.detail, k);
+                        v.prop = "C17".into();
+                        if viols.iter().filter(|y| y.class == v.class).count() < 2 {
+                            viols.push(v);
+                        }
+                    }
+                    o.fingerprint
+                });
+                match r {
+                    Ok(st) => {
+                        execs += st.executions;
+                        if st.exhausted || st.capped {
+                            break;
+                        }
+                    }
+                    Err(_) => break,
+                }
+            }
+            crate::sched::FAIL_KTH.with(|c| c.set(None));
+            (execs, viols)
+        })
+        .collect();
+    let mut viols = vec![];
+    let mut execs = 0;
+    for (e, v) in results {
+        execs += e;
+        viols.extend(v);
+    }
+    (viols, json!({"scenarios": scenarios.len(), "fault_positions": jobs.len(), "executions": execs,
+        "rule": "for each scenario of two concurrent calls and each position k: the k-th request submitted in the concurrent phase fails, every schedule within the deviation bound; the backend heals; end state judged (no panic/deadlock, per-block linearizability with failed calls optional, content equal after flush + reopen)"}))
+}
+
 /// every history of the fault alphabet x every single request failing, heal, flush until Ok,
 /// then old device vs. a device opened on the same bytes (the C02 oracle inside fault.rs)
 pub fn faulted_histories_part(thorough: bool, prop: &str) -> (Vec<Violation>, Value) {
@@ -1464,6 +1549,9 @@ pub fn fault_check() -> i32 {
             total.requests += st.requests;
         }
     }
+    // a request failing inside a concurrent execution
+    let (cv, conc_json) = faulted_concurrent_part(thorough);
+    run.add_all(cv);
     for (img, g, alphabet, depth) in growth {
         let sc = FaultScenario { img: img.clone(), cfg: cfg_of(&g, "small"), cfg_name: "small".to_string(), crash_oracle: false };
         let hists = all_histories(&alphabet, depth);
@@ -1507,10 +1595,11 @@ pub fn fault_check() -> i32 {
     let cov = json!({
         "evaluations": total.runs,
         "distinct_nontrivial": total.changed_result,
-        "rule": "for every history of the reduced alphabet at the stated depth: one run per backend request with exactly that request failing (plus all pairs where stated, plus 'every request of kind R/W/Z/F fails' and 'hole punch unsupported'); distinct_nontrivial = runs in which the injected fault actually hit a request",
+        "rule": "for every history of the reduced alphabet at the stated depth: one run per backend request with exactly that request failing (plus all pairs where stated, plus 'every request of kind R/W/Z/F fails', 'hole punch unsupported', 'hole punch unsupported + one request failing'), plus one run per request of qcow2_prep_io() failing with the open retried, plus faults inside concurrent executions; distinct_nontrivial = runs in which the injected fault actually hit a request",
         "samples": samples,
         "histories": total.histories,
         "exhaustive": !capped,
+        "faults_inside_concurrent_executions": conc_json,
         "scenarios": scen,
     });
     run.finish(cov, vec![
